@@ -234,20 +234,25 @@ structure MwSt where
   glob : St
   prof : Option ProfLim
 
+/-- `serveWithGlobalRatelimiting` (and the tail of the library `Middleware.ServeDNS`): the global
+limiter decides; a passed request's response is weighed, an allowlisted one is not. -/
+def serveGlobal (c : Cfg) (g : St) (now tick : Int) (a : Addr) (qtype : Nat)
+    (respLen : Option Nat) : St × Effect :=
+  match isRateLimited c g now a qtype with
+  | (g', .drop) => (g', .dropped)
+  | (g', .allowlisted) => (g', .servedNoCount)
+  | (g', .pass) =>
+    match respLen with
+    | none => (g', .servedCounted)
+    | some l => (countResponses c g' (loopTimes now tick (respWeight c.est l)) a qtype, .servedCounted)
+
 def serve (c : Cfg) (protoLimited : Bool) (m : MwSt) (now tick : Int) (a : Addr) (qtype : Nat)
     (respLen : Option Nat) : MwSt × Effect :=
   if !protoLimited then (m, .servedNoCount)
   else
     let globalPath (m : MwSt) : MwSt × Effect :=
-      match isRateLimited c m.glob now a qtype with
-      | (g, .drop) => ({ m with glob := g }, .dropped)
-      | (g, .allowlisted) => ({ m with glob := g }, .servedNoCount)
-      | (g, .pass) =>
-        match respLen with
-        | none => ({ m with glob := g }, .servedCounted)
-        | some l =>
-          ({ m with glob := countResponses c g (loopTimes now tick (respWeight c.est l)) a qtype },
-            .servedCounted)
+      ({ m with glob := (serveGlobal c m.glob now tick a qtype respLen).1 },
+        (serveGlobal c m.glob now tick a qtype respLen).2)
     match m.prof with
     | none => globalPath m
     | some p =>
@@ -260,6 +265,33 @@ def serve (c : Cfg) (protoLimited : Bool) (m : MwSt) (now tick : Int) (a : Addr)
         | some l =>
           ({ m with prof := some (p'.countResponses (loopTimes now tick (respWeight p'.est l)) a) },
             .servedCounted)
+
+/-- The library middleware `ratelimit.Middleware.ServeDNS` (`internal/dnsserver/ratelimit/ratelimit.go`):
+protocol gate (`enabled` = protocol list empty or containing the server's protocol), a remote
+address without a port is dropped as spoofed before the limiter is consulted, then the global flow. -/
+def serveLib (c : Cfg) (enabled portZero : Bool) (g : St) (now tick : Int) (a : Addr) (qtype : Nat)
+    (respLen : Option Nat) : St × Effect :=
+  if !enabled then (g, .servedNoCount)
+  else if portZero then (g, .dropped)
+  else serveGlobal c g now tick a qtype respLen
+
+/-! ## `DynamicAllowlist` -/
+
+/-- `DynamicAllowlist`: a fixed list and a replaceable list of networks. -/
+structure Allowlist where
+  persistent : List Prefix
+  dynamic : List Prefix
+deriving Repr
+
+/-- `IsAllowed`: persistent networks first, then the dynamic ones. -/
+def Allowlist.isAllowed (l : Allowlist) (a : Addr) : Bool :=
+  l.persistent.any (fun p => p.contains a) || l.dynamic.any (fun p => p.contains a)
+
+/-- `Update` replaces the dynamic networks and nothing else. -/
+def Allowlist.update (l : Allowlist) (nets : List Prefix) : Allowlist := { l with dynamic := nets }
+
+/-- The list the limiter's `allowed` test runs over. -/
+def Allowlist.flat (l : Allowlist) : List Prefix := l.persistent ++ l.dynamic
 
 end Agd.Ratelimit
 
@@ -325,5 +357,170 @@ def specRun (c : Cfg) : Spec → List Ev → List Verdict
 def Chain : Int → List Ev → Prop
   | _, [] => True
   | T, e :: r => 0 < e.now ∧ T ≤ e.now ∧ Chain e.now r
+
+end Agd.Ratelimit
+
+namespace Agd.Ratelimit
+
+/-! ## Window-log specification with epochs (cache expiry)
+
+The real limiter keeps its per-bucket log in a cache entry that lives `Period` after its
+*creation* (use does not prolong it), and its per-bucket over-limit count in an entry that lives
+`Duration` after its *first hit*.  The specification below says exactly that, declaratively: a
+bucket is a sliding window log that is wiped `Period` after the first event of its epoch, plus a
+hit count that is wiped `Duration` after the first hit of its epoch. -/
+
+/-- Abstract bucket: counted stamps of the current counter epoch (most recent first), creation time
+of that epoch, number of over-limit hits of the current hit epoch, time of its first hit. -/
+structure Bk where
+  log : List Int
+  born : Option Int
+  hits : Nat
+  hitBorn : Option Int
+deriving Repr, DecidableEq
+
+abbrev ESpec := Key → Bk
+
+def ESpec.empty : ESpec := fun _ => ⟨[], none, 0, none⟩
+
+/-- An epoch created at `b` with lifetime `d` is still alive at `now` (`d ≤ 0` = lives forever;
+no epoch = not alive). -/
+def aliveAt (b : Option Int) (d now : Int) : Bool :=
+  match b with
+  | none => false
+  | some b => decide (d ≤ 0) || decide (now ≤ b + d)
+
+/-- The log that counts at `now`: the stored one if its epoch is alive, else empty. -/
+def Bk.curLog (b : Bk) (period now : Int) : List Int :=
+  if aliveAt b.born period now then b.log else []
+
+/-- The epoch the event at `now` falls in: the stored one if alive, else a new one born `now`. -/
+def Bk.curBorn (b : Bk) (period now : Int) : Option Int :=
+  if aliveAt b.born period now then b.born else some now
+
+/-- Backoff: the hit epoch is alive and has reached `count` hits. -/
+def Bk.inBackoff (b : Bk) (count : Nat) (duration now : Int) : Bool :=
+  aliveAt b.hitBorn duration now && decide (count ≤ b.hits)
+
+/-- Count one event at `now` in a bucket with limit `num` per `ivl`: window-log test against the
+current epoch's log, the stamp is logged, and an over-limit event is one more hit of the alive hit
+epoch or the first hit of a new one. -/
+def Bk.count (b : Bk) (num : Nat) (ivl period duration now : Int) : Bk × Bool :=
+  (if aboveSpec num ivl (b.curLog period now) now then
+      { log := now :: b.curLog period now
+        born := b.curBorn period now
+        hits := if aliveAt b.hitBorn duration now then b.hits + 1 else 1
+        hitBorn := if aliveAt b.hitBorn duration now then b.hitBorn else some now }
+    else
+      { log := now :: b.curLog period now
+        born := b.curBorn period now
+        hits := b.hits
+        hitBorn := b.hitBorn },
+   aboveSpec num ivl (b.curLog period now) now)
+
+/-- One event against the epoch specification: drop ⇔ ANY-refusal, or the bucket is in backoff, or
+at least `limit` earlier counted events of the bucket's current epoch lie within the closed window;
+allowlisted clients and events dropped by ANY-refusal/backoff leave no trace. -/
+def especStep (c : Cfg) (sp : ESpec) (e : Ev) : ESpec × Verdict :=
+  if c.refuseAny && e.qtype == qtypeANY then (sp, .drop)
+  else if allowed c e.addr then (sp, .allowlisted)
+  else if (sp (evKey c e)).inBackoff c.count c.duration e.now then (sp, .drop)
+  else
+    (fun k => if k = evKey c e then
+        ((sp (evKey c e)).count (famCountK c (evKey c e)) (famIvlK c (evKey c e)) c.period c.duration e.now).1
+      else sp k,
+     if ((sp (evKey c e)).count (famCountK c (evKey c e)) (famIvlK c (evKey c e)) c.period c.duration e.now).2
+     then .drop else .pass)
+
+def especRun (c : Cfg) : ESpec → List Ev → List Verdict
+  | _, [] => []
+  | sp, e :: r => (especStep c sp e).2 :: especRun c (especStep c sp e).1 r
+
+end Agd.Ratelimit
+
+namespace Agd.Ratelimit
+
+/-! ## Quiet resets
+
+The property as stated (an exact sliding window per subnet, with backoff) is the epoch specification
+with counter resets switched off: `especRun { c with period := 0 }`.  A reset of a bucket's log is
+*quiet* when every discarded stamp had already left the window — then the reset cannot be observed. -/
+
+/-- The event at `now` wipes the bucket's log: a counter epoch exists and is no longer alive. -/
+def Bk.resetsAt (b : Bk) (period now : Int) : Bool :=
+  b.born.isSome && !aliveAt b.born period now
+
+/-- The event is harmless for the exact-window claim: it does not reach the counter (ANY-refusal,
+allowlisted, backoff), or it does not reset its bucket's log, or every stamp `x` of the discarded log
+is already outside its window, `e.now - x > ivl`. -/
+def quietStep (c : Cfg) (sp : ESpec) (e : Ev) : Bool :=
+  if c.refuseAny && e.qtype == qtypeANY then true
+  else if allowed c e.addr then true
+  else if (sp (evKey c e)).inBackoff c.count c.duration e.now then true
+  else if (sp (evKey c e)).resetsAt c.period e.now then
+    (sp (evKey c e)).log.all (fun x => decide (famIvlK c (evKey c e) < e.now - x))
+  else true
+
+/-- Every reset along the history (followed on the epoch specification) is quiet. -/
+def quietResets (c : Cfg) : ESpec → List Ev → Bool
+  | _, [] => true
+  | sp, e :: r => quietStep c sp e && quietResets c (especStep c sp e).1 r
+
+/-- `Prop` form of `quietResets`. -/
+def QuietResets (c : Cfg) (sp : ESpec) (evs : List Ev) : Prop := quietResets c sp evs = true
+
+instance (c : Cfg) (sp : ESpec) (evs : List Ev) : Decidable (QuietResets c sp evs) :=
+  inferInstanceAs (Decidable (quietResets c sp evs = true))
+
+/-! ## Histories with a changing allowlist -/
+
+/-- Verdicts of a history in which every event is evaluated under the allowlist current at its time
+(`DynamicAllowlist.Update` between events). -/
+def runA (c : Cfg) : St → List (List Prefix × Ev) → List Verdict
+  | _, [] => []
+  | s, (al, e) :: r =>
+    (isRateLimited { c with allow := al } s e.now e.addr e.qtype).2 ::
+      runA c (isRateLimited { c with allow := al } s e.now e.addr e.qtype).1 r
+
+def especRunA (c : Cfg) : ESpec → List (List Prefix × Ev) → List Verdict
+  | _, [] => []
+  | sp, (al, e) :: r =>
+    (especStep { c with allow := al } sp e).2 :: especRunA c (especStep { c with allow := al } sp e).1 r
+
+end Agd.Ratelimit
+
+namespace Agd.Ratelimit
+
+/-! ## The profile limiter over whole histories -/
+
+/-- Verdicts of a history of (time, client) pairs on a profile's limiter. -/
+def profRun : ProfLim → List (Int × Addr) → List PRes
+  | _, [] => []
+  | p, (t, a) :: r => (p.check t a).2 :: profRun (p.check t a).1 r
+
+/-- Window-log specification of the profile limiter (`rps` per second): a client outside the
+configured (non-empty) subnets is handed to the global limiter and leaves no trace; any other request
+is dropped iff at least `rps` earlier counted requests lie within the last second, and is logged. -/
+def profSpecRun (rps : Nat) (subnets : List Prefix) : List Int → List (Int × Addr) → List PRes
+  | _, [] => []
+  | log, (t, a) :: r =>
+    if !subnets.isEmpty && !(subnets.any (fun s => s.contains a)) then
+      .useGlobal :: profSpecRun rps subnets log r
+    else
+      (if aboveSpec rps 1000000000 log t then .drop else .pass) :: profSpecRun rps subnets (t :: log) r
+
+/-- Times are positive and non-decreasing, starting from `T`. -/
+def TChain : Int → List (Int × Addr) → Prop
+  | _, [] => True
+  | T, (t, _) :: r => 0 < t ∧ T ≤ t ∧ TChain t r
+
+/-- Verdicts, within a whole history with per-event allowlists, of the events in bucket `k`. -/
+def runKA (c : Cfg) (k : Key) : St → List (List Prefix × Ev) → List Verdict
+  | _, [] => []
+  | s, (al, e) :: r =>
+    if evKey c e = k then
+      (isRateLimited { c with allow := al } s e.now e.addr e.qtype).2 ::
+        runKA c k (isRateLimited { c with allow := al } s e.now e.addr e.qtype).1 r
+    else runKA c k (isRateLimited { c with allow := al } s e.now e.addr e.qtype).1 r
 
 end Agd.Ratelimit
